@@ -61,9 +61,10 @@ use tensor_store::SparseVector;
 
 const DIM: usize = 4;
 const FLOOR_UNLOGGED_PHASE: u64 = 8;
-/// `--judge-complete-calls 1`: also take `complete_commit()`/`complete_abort()` returning Ok as an
-/// announced completion. Off by default: they finish a decision `recover()` took in memory, the
-/// code logs neither, and the statement speaks of completions that were logged (see `witness`).
+/// `complete_commit()`/`complete_abort()` returning Ok are taken as announced completions, like
+/// `commit()`/`abort()` (the code logs the decision `recover()` takes and the completion since the
+/// repair 3515d35a; before it the check fired on the unchanged tree, see `witness`).
+/// `--judge-complete-calls 0` switches the clause off.
 static JUDGE_COMPLETE_CALLS: std::sync::atomic::AtomicBool = std::sync::atomic::AtomicBool::new(false);
 fn judge_complete_calls() -> bool {
     JUDGE_COMPLETE_CALLS.load(std::sync::atomic::Ordering::Relaxed)
@@ -1642,7 +1643,7 @@ fn main() {
         return;
     }
     let started = Instant::now();
-    JUDGE_COMPLETE_CALLS.store(args.extra_u64("judge-complete-calls", 0) != 0, std::sync::atomic::Ordering::Relaxed);
+    JUDGE_COMPLETE_CALLS.store(args.extra_u64("judge-complete-calls", 1) != 0, std::sync::atomic::Ordering::Relaxed);
     quiet_panics();
     let mut total = Report::new();
     total.max_samples = 6;
